@@ -97,6 +97,54 @@ func init() {
 		body += "(* pkg/cryptoutil: AESGCMDecrypt returns an error when the input is shorter than the nonce; AESCTRStream when the IV is not one block *)\n"
 		body += fmt.Sprintf("Definition aesgcm_decrypt_length_guard : bool := %v.\n", guard("AESGCMDecrypt", "len(data)<gcm.NonceSize()"))
 		body += fmt.Sprintf("Definition aesctr_iv_length_guard : bool := %v.\n", guard("AESCTRStream", "len(iv)!=blockCipher.BlockSize()"))
+		// fixed-size conversions of caller-supplied bytes that panic on another length
+		guardIn := func(rel, recv, fn, cond string) bool {
+			found := false
+			if fd := funcDecl(parse(rel), recv, fn); fd != nil && fd.Body != nil {
+				ast.Inspect(fd.Body, func(n ast.Node) bool {
+					if is, ok := n.(*ast.IfStmt); ok && strings.ReplaceAll(exprString(is.Cond), " ", "") == cond && len(is.Body.List) > 0 {
+						if _, ret := is.Body.List[len(is.Body.List)-1].(*ast.ReturnStmt); ret {
+							found = true
+						}
+					}
+					return true
+				})
+			}
+			return found
+		}
+		// OpenOutOfStoreMessage (and what it calls in the same file): the nonce goes through the
+		// length-checked cryptoutil.NonceSliceToArray, and no slice is converted to an array directly
+		nonceChecked, directConv := false, false
+		if f := parse("pkg/secretstore/secret_store.go"); f != nil {
+			for _, d := range f.f.Decls {
+				fd, ok := d.(*ast.FuncDecl)
+				if !ok || fd.Body == nil || !strings.Contains(fd.Name.Name, "OutOfStoreMessage") {
+					continue
+				}
+				ast.Inspect(fd.Body, func(n ast.Node) bool {
+					if c, ok := n.(*ast.CallExpr); ok {
+						if exprString(c.Fun) == "cryptoutil.NonceSliceToArray" {
+							nonceChecked = true
+						}
+						// a conversion (*[N]byte)(x) or [N]byte(x)
+						fun := c.Fun
+						if p, ok := fun.(*ast.ParenExpr); ok {
+							fun = p.X
+						}
+						if st, ok := fun.(*ast.StarExpr); ok {
+							fun = st.X
+						}
+						if _, ok := fun.(*ast.ArrayType); ok {
+							directConv = true
+						}
+					}
+					return true
+				})
+			}
+		}
+		body += "\n(* Group.GetSigningPrivKey returns an error unless the secret has the ed25519 seed size (NewKeyFromSeed panics otherwise);\n   the OutOfStoreMessage functions of secret_store.go take the nonce through cryptoutil.NonceSliceToArray and convert no slice to an array directly *)\n"
+		body += fmt.Sprintf("Definition group_secret_length_guard : bool := %v.\n", guardIn("pkg/protocoltypes/group.go", "Group", "GetSigningPrivKey", "len(m.Secret)!=ed25519.SeedSize"))
+		body += fmt.Sprintf("Definition push_nonce_length_checked : bool := %v.\n", nonceChecked && !directConv)
 		write("Handlers.v", body)
 	})
 }
